@@ -87,7 +87,7 @@ WIDENED = {
  "C06-10": "blind miss: distribution points that differ only in the letter case of their path",
  "C07-10": "blind miss: an upper-case twin of a COSE time label, encoded first, as benign variation",
  "C07-11": "blind miss: a signing time at which the chain did not exist yet, as benign variation",
- "C07-12": "blind miss: the other scheme's time header carrying the zero instant",
+ "C07-12": "blind miss, and still not reported: the deviation was added (the other scheme's time header carrying the zero instant), the changed library accepts such envelopes - but everything it then returns satisfies every clause of C07 (the statement constrains what a successful verification returns; it does not demand that the extra header be refused), so the oracle, which follows the statement, stays silent. Kept as the one change outside what the statement decides",
  "C08-10": "blind miss: the empty JSON object as payload",
  "C09-11": "blind miss: CRLs with a revoking base AND a non-empty delta in C09; a panic instead of a verdict is a violation in C04/C05/C06/C10/C11/C12",
  "C09-12": "blind miss: response bodies that never end",
